@@ -325,7 +325,11 @@ impl MultiState {
         // This is because `println` is supposed to appear above all other elements in the
         // `MultiProgress`. The zombies reaped by this very draw are still part of the previous
         // frame and get erased with it, so only the lines of earlier zombies are added here.
-        if extra_lines.is_some() {
+        //
+        // The same holds for lines from `ProgressBar::println`: they are printed directly above
+        // the bars, that is below the zombie lines, which could not be erased any more afterwards.
+        let printing = extra_lines.is_some() || orphan_visual_line_count > VisualLines::default();
+        if printing {
             drawable.adjust_last_line_count(LineAdjust::Clear(self.zombie_lines_count));
             self.zombie_lines_count = VisualLines::default();
         } else {
@@ -360,7 +364,7 @@ impl MultiState {
 
         // The zombie lines were drawn for the last time, so make `DrawTarget` forget about them
         // so they aren't cleared on next draw.
-        if extra_lines.is_none() {
+        if !printing {
             self.draw_target
                 .adjust_last_line_count(LineAdjust::Keep(adjust));
         }
